@@ -326,4 +326,26 @@ theorem step_flagArg {cfg : Cfg} {st : St} {lead key pre post junk trail n : Byt
   rw [htext, step_header cfg st hlead hkey hp hrest, findOption_of_lookup hlk]
   simp [hq, p, hkind, hskip, reportError, hthrow, applyItem, findOption_of_lookup hlk, addErr]
 
+theorem renderAll_startsItem (cfg : Cfg) (items : List (Item × Bytes)) (h : ItemsWF cfg items) :
+    StartsItem (renderAll items) := by
+  cases items with
+  | nil => trivial
+  | cons x rest =>
+    obtain ⟨it, trail⟩ := x
+    obtain ⟨hwf, _⟩ := h
+    have hk : KeyOk' it.key ∧ ∃ X, it.render = it.key ++ X := by
+      cases it with
+      | assign key sep lit => exact ⟨hwf.1, _, rfl⟩
+      | query key sep => exact ⟨hwf.1, _, rfl⟩
+      | unknown key pre eq => exact ⟨hwf.1, _, rfl⟩
+      | flagArg key pre post junk => exact ⟨hwf.1, _, rfl⟩
+    obtain ⟨⟨⟨hne, hkc⟩, hq⟩, X, hX⟩ := hk
+    simp only [renderAll, hX]
+    cases hkey : it.key with
+    | nil => exact absurd hkey hne
+    | cons c r =>
+      simp only [List.cons_append, StartsItem]
+      exact ⟨hkc c (by simp [hkey]), hq c r hkey⟩
+
+
 end MpVerif.C11
